@@ -283,6 +283,52 @@ def interleaved_case(case):
     return None
 
 
+def encode_soak(threads, rounds):
+    """several associations' threads encode their own messages at the same time (the encoders are module-level
+    functions every association shares): each thread must get ITS bytes.  The expected bytes are computed beforehand,
+    single-threaded.  Returns a list of problems."""
+    import pydicom
+    from pynetdicom2 import dsutils, dimsemessages as dm
+    from . import msgs
+    work = {}
+    for i in range(threads):
+        items = []
+        for k in range(rounds):
+            ds = pydicom.Dataset()
+            ds.PatientID = 'T%d-%d' % (i, k)
+            ds.PatientName = ('n%d' % i) * (1 + (i * 7 + k) % 40)
+            ds.add_new(0x00420011, 'OB', bytes((i * 31 + k + j) % 256 for j in range(2 * ((i + k) % 50))))
+            imp = (i + k) % 2 == 0
+            items.append((ds, imp, dsutils.encode(ds, imp, True), 1 + (i * 1000 + k) % 65535))
+        work[i] = items
+    problems = []
+    bar = threading.Barrier(threads)
+
+    def body(i):
+        bar.wait()
+        for k, (ds, imp, want, mid) in enumerate(work[i]):
+            got = dsutils.encode(ds, imp, True)
+            if got != want:
+                problems.append('thread %d, data set %d: encoded to %d bytes that are not its own %d bytes' % (i, k, len(got), len(want)))
+                return
+            m = dm.CStoreRQMessage()
+            m.message_id = mid; m.sop_class_uid = IMG; m.affected_sop_instance_uid = '1.2.%d.%d' % (i, k); m.priority = 0
+            m.data_set = got
+            pdus = msgs.send_via_association(m, 1 + 2 * (i % 100), 16384)
+            cmd = b''.join(it.data_value[1:] for p in pdus for it in p.data_value_items if it.data_value[0] in (1, 3))
+            cs = dsutils.decode(cmd, True, True)
+            if cs.MessageID != mid or str(cs.AffectedSOPInstanceUID) != '1.2.%d.%d' % (i, k) or cs.CommandGroupLength != len(cmd) - 12:
+                problems.append('thread %d, message %d: command set on the wire has id %r, instance %r, group length %r for %d bytes'
+                                % (i, k, cs.MessageID, str(cs.AffectedSOPInstanceUID), cs.CommandGroupLength, len(cmd) - 12))
+                return
+    ts = [threading.Thread(target=body, args=(i,), daemon=True) for i in range(threads)]
+    for t in ts:
+        t.start()
+    for t in ts:
+        t.join(120)
+    return problems
+
+
 def dead_peer_case(case):
     """one entity, several requests at once, one of them to a peer that accepts the connection and never answers: the
     healthy associations must not wait for the dead one"""
@@ -341,6 +387,9 @@ def dead_peer_case(case):
 
 
 def replay(case):
+    if case.get('encode_soak'):
+        p = encode_soak(case['threads'], case['rounds'])
+        return '; '.join(p[:3]) or None
     if case.get('interleaved'):
         try:
             return interleaved_case(case)
@@ -400,6 +449,19 @@ def run(chk):
         chk.count('interleaved:%d-providers' % len(ic['convs']))
         if r:
             chk.violation('C20:interleaved', r, ic)
+    # the shared encoders under concurrent use
+    es = {'encode_soak': True, 'threads': 8, 'rounds': 150 if tier == 'quick' else 1500}
+    import sys as _sys
+    old_si = _sys.getswitchinterval()
+    _sys.setswitchinterval(1e-5)             # switch threads often: what would take a loaded server hours shows in seconds
+    try:
+        probs = encode_soak(es['threads'], es['rounds'])
+    finally:
+        _sys.setswitchinterval(old_si)
+    chk.case(repr(es), True, {'encode_soak': '%d threads x %d messages' % (es['threads'], es['rounds'])})
+    chk.count('encode-soak:messages', es['threads'] * es['rounds'])
+    if probs:
+        chk.violation('C20:encode-soak', 'concurrent associations: ' + '; '.join(probs[:3]), es)
     # one entity requesting several associations at once, one of them to a dead peer
     dp = {'dead_peer': True, 'timeout': 6, 'healthy': 3}
     r = dead_peer_case(dp)
